@@ -624,6 +624,7 @@ def install_core_summary(R):
         base.ensures.append((f"grid.{name}", f"implies(old({guard}), {txt})"))
     base.ghost_out = dict(grid.ghost_out)
     base.out_params = ["info"]
+    grid.out_params = ["info"]      # `info` in the clauses is the dict as the runner leaves it (same reading as at call sites)
     base.fn_params = dict(grid.fn_params)
     base.notes = ("derived: clauses 'grid.*' are exactly the postconditions discharged for combo_runner_core@grid (C01), guarded by its "
                   "preconditions; for the cases branch only the file-system frame is assumed")
